@@ -449,6 +449,30 @@ def _range(*a):
     return s
 
 
+def instantiate_all(eng, truth, k):
+    """ground instance at index k of `all(...) -> element k` for the reduction(s) whose truth value is `truth` (np.all result, or the
+    negation produced by np.any): the quantified form is already an axiom of the path"""
+    t = zb(truth)
+    for (b, n, fn) in eng_reg(eng, "__all"):
+        if t.eq(b) or (z3.is_not(t) and t.arg(0).eq(b)):
+            rng = z3.And(to_z3(lift(k)) >= 0, to_z3(lift(k)) < to_z3(lift(n)))
+            fk = eng.under(rng, lambda: zb(fn(k)))
+            eng.axiom(z3.Implies(z3.And(b, rng), fk))
+
+
+def instantiate_extremes(eng, x, idx):
+    """instances, at element `idx` (tuple), of the universal bounds that np.min / np.max / .min() / .max() of the array x promised (D23):
+    the quantified form is already an axiom of the path; this adds the ground instance so that no quantifier instantiation is needed"""
+    if not isinstance(idx, tuple):
+        idx = (idx,)
+    f = x.snapshot_fn()
+    inb = z3.And(*[z3.And(to_z3(lift(i)) >= 0, to_z3(lift(i)) < to_z3(lift(d))) for i, d in zip(idx, x.shape)])
+    for (bid, ver, fw, which, m) in eng_reg(eng, "__extreme_same"):
+        if bid == x.buf.id and ver == x.buf.writes and fw is x.fwd:
+            v = eng.under(inb, lambda: f(idx), default=0.0)
+            eng.axiom(z3.Implies(inb, zb((lift(v) <= m) if which == "max" else (lift(v) >= m))))
+
+
 def buffer_key(eng, arr):
     """small stable number identifying the buffer behind an array on this path"""
     keys = eng.ghost.setdefault("buf_keys", {})
@@ -643,6 +667,7 @@ def agg_all(e, n, fn):
         return b_and(*[fn(i) for i in range(cn)])
     b = z3.Bool(e.uniq("all"))
     w = z3.Int(e.uniq("all_w"))
+    eng_reg(e, "__all").append((b, n, fn))
     e.axiom(z3.Implies(b, e.forall(n, fn, name="allq")))
     wr = z3.And(w >= 0, w < to_z3(n))
     fw = e.under(wr, lambda: zb(fn(Num(w))))
@@ -1495,6 +1520,31 @@ class _NP:
         e.axiom(e.forall(n, lambda k: (lift(f((k,))) <= m) if which == "max" else (lift(f((k,))) >= m), name="aq"))
         e.axiom(e.forall(w, lambda k: (lift(f((k,))) < m) if which == "max" else (lift(f((k,))) > m), name="afq"))
         return w
+
+    def concatenate(self, arrs, axis=0):
+        """np.concatenate along axis 0 of a python list of arrays of equal trailing shape (lengths may be symbolic): a fresh array"""
+        e = cur()
+        arrs = [from_nested(list(x)) if isinstance(x, (list, tuple)) else x for x in list(arrs)]
+        if axis != 0 or not arrs or not all(isinstance(x, Arr) for x in arrs):
+            raise Unsupported("np.concatenate form")
+        nd = arrs[0].ndim
+        if any(x.ndim != nd for x in arrs):
+            e.py_raise("ValueError", "all the input array dimensions must match")
+        fs = [x.snapshot_fn() for x in arrs]
+        offs = [0]
+        for x in arrs:
+            offs.append(offs[-1] + x.shape[0])
+        kind = "float" if any(x.kind == "float" for x in arrs) else arrs[0].kind
+
+        def value(idx):
+            v = None
+            for t in range(len(arrs) - 1, -1, -1):
+                loc = (idx[0] - offs[t],) + tuple(idx[1:])
+                inside = b_and(lift(idx[0]) >= offs[t], lift(idx[0]) < offs[t + 1])
+                vt = e.under(zb(inside), (lambda t=t, loc=loc: fs[t](loc)), default=0.0)
+                v = vt if v is None else ite(lift(idx[0]) >= offs[t], vt, v) if False else (vt if t == len(arrs) - 1 else ite(lift(idx[0]) < offs[t + 1], vt, v))
+            return v
+        return Arr((offs[-1],) + tuple(arrs[0].shape[1:]), value, dtype=kind)
 
     def triu_indices_from(self, a, k=0):
         if not (isinstance(a, Arr) and a.ndim == 2) or not isinstance(k, int):
